@@ -5,6 +5,7 @@ refute:  z3 `sat` on quantifier-light goals, else cvc5 --finite-model-find --mbq
 Results: 'unsat' (discharged) | 'sat' (refuted, model text) | 'unknown'
 """
 import os
+import shutil
 import subprocess
 import tempfile
 import time
@@ -25,23 +26,36 @@ def to_smt2(hyps, goal):
     return s.to_smt2()
 
 
+Z3_BIN = shutil.which("z3-new") or "/usr/bin/z3"
+Z3_MEM_MB = int(os.environ.get("PYVC_Z3_MEM", "3000"))
+
+
 def _z3_check(smt2, timeout_ms, want_model=False):
-    import z3
-    ctx = z3.Context()
-    s = z3.Solver(ctx=ctx)
-    s.set("timeout", timeout_ms)
-    s.from_string(smt2)
+    """one z3 process per query (native CLI): a query that ignores its soft timeout or explodes in memory is killed by the OS-level
+    timeout / z3's -memory limit instead of wedging a pool worker"""
+    text = smt2
+    if want_model:
+        text = "(set-option :produce-models true)\n" + text.replace("(check-sat)", "(check-sat)\n(get-model)")
+    with tempfile.NamedTemporaryFile("w", suffix=".smt2", delete=False) as f:
+        f.write(text)
+        name = f.name
     t = time.time()
-    r = s.check()
+    out = ""
+    try:
+        p = subprocess.run([Z3_BIN, f"-T:{max(1, timeout_ms // 1000)}", f"-memory:{Z3_MEM_MB}", name], capture_output=True, text=True,
+                           timeout=timeout_ms / 1000 + 15)
+        out = p.stdout
+    except subprocess.TimeoutExpired:
+        out = "timeout"
+    finally:
+        os.unlink(name)
     ms = int((time.time() - t) * 1000)
-    model = None
-    if r == z3.sat and want_model:
-        try:
-            model = s.model().sexpr()
-        except Exception:
-            model = None
-    reason = s.reason_unknown() if r == z3.unknown else ""
-    return str(r), ms, model, reason
+    first = out.strip().split("\n")[0] if out.strip() else "unknown"
+    if first == "unsat":
+        return "unsat", ms, None, ""
+    if first == "sat":
+        return "sat", ms, out[:6000], ""
+    return "unknown", ms, None, first[:200]
 
 
 def _cvc5(smt2, args, timeout_ms):
@@ -104,7 +118,7 @@ def solve_one(job):
 def feasible_one(job):
     """is the hypothesis set (path condition) refutable?  'unsat' => infeasible path"""
     name, smt2 = job
-    r, ms, _, _ = _z3_check(smt2, 600)
+    r, ms, _, _ = _z3_check(smt2, 1000)
     return name, r, ms
 
 
@@ -131,16 +145,27 @@ def _mixed(job):
 
 
 def run_mixed(feas_jobs, jobs, workers=None):
-    """one pool for feasibility queries and obligations"""
+    """one pool for feasibility queries and obligations.  Every solver call is its own OS process with a hard timeout, so plain
+    threads suffice here."""
+    from concurrent.futures import ThreadPoolExecutor
     workers = workers or min(16, os.cpu_count() or 4)
     out = {}
     tagged = [("solve",) + tuple(j) for j in jobs] + [("feas",) + tuple(j) for j in feas_jobs]
     if not tagged:
         return out
-    with ProcessPoolExecutor(max_workers=workers) as ex:
-        for res in ex.map(_mixed, tagged, chunksize=1):
+    with ThreadPoolExecutor(max_workers=workers) as ex:
+        for t, res in zip(tagged, ex.map(_mixed_safe, tagged)):
             if isinstance(res, dict):
                 out[res["name"]] = res
             else:
                 out[res[0]] = res
     return out
+
+
+def _mixed_safe(t):
+    try:
+        return _mixed(t)
+    except Exception as e:      # never a verdict
+        if t[0] == "feas":
+            return (t[1], "unknown", 0)
+        return dict(name=t[1], result="unknown", backend="-", ms=0, log=[], why=f"solver driver: {type(e).__name__}: {e}")
